@@ -306,7 +306,7 @@ def c02_cases(tier, seed):
     for i, (t1, t2) in enumerate(itertools.product(texts, repeat=2)):
         if tier == "quick" and i % 3:
             continue
-        for host in ["div", "Comp", ""]:
+        for host in ["div", "Comp", "", "pre", "textarea", "KeepAlive", "my-el", "NS.Item"][:3 if (tier == "quick" and i % 2) else 8]:
             o, c = ("<%s>" % host, "</%s>" % host)
             src = gen.PRELUDE + "const v = %s%s{x}%s<i/>{}%s;\n" % (o, t1, t2, c)
             run.append({"id": "p%d" % len(run), "src": src, "tsx": False, "opts": {"optimize": bool(i % 2)}})
@@ -317,20 +317,24 @@ def c02_cases(tier, seed):
     for s_ in strings_upto(pipe_alpha, n_pipe):
         if not s_:
             continue
-        for shape in ["<div>%s</div>", "<Comp>{x}%s{y}</Comp>", "<>%s<i/></>"]:
+        for shape in ["<div>%s</div>", "<Comp>{x}%s{y}</Comp>", "<>%s<i/></>", "<pre>%s<code>%s</code></pre>", "<textarea>%s</textarea>", "<script>%s</script>", "<svg><text>%s</text></svg>"]:
+            if "%s<code>" in shape:
+                shape = shape.replace("%s", "%(s)s") % {"s": s_.replace("%", "%%")}
+                run.append({"id": "w%d" % len(run), "src": gen.PRELUDE + "const v = " + shape + ";\n", "tsx": False, "opts": {}})
+                continue
             run.append({"id": "w%d" % len(run), "src": gen.PRELUDE + "const v = " + (shape % s_) + ";\n", "tsx": False, "opts": {}})
     n_mod = budget(tier, 1500, 40000)
     for i in range(n_mod):
         g = gen.Gen(r, {"children": {"text": 8, "expr": 3, "ident": 2, "call": 1, "empty": 2, "comment": 1, "spread": 2,
                                      "element": 4, "fragment": 2, "fn": 0, "objlit": 0},
-                        "attr_values": {"string": 3, "none": 1, "expr": 3, "const": 1, "string-ws": 4, "jsx": 0, "empty": 0},
+                        "attr_values": {"string": 3, "none": 1, "expr": 3, "const": 1, "string-ws": 4, "jsx": 1, "empty": 0},
                         "w_directive": 0})
         src = g.module()
         hist.update(g.used)
         run.append({"id": "m%d" % i, "src": src, "tsx": False, "opts": gen.opts_random(r)})
     return unit, run, {
         "rule": "unit: ALL strings of length <= %d over {space, tab, LF, CR, NBSP, U+2003, a, b} through the hook verif_hooks::transform_text "
-                "+ %d random strings (also CRLF, U+2028, U+3000, entities' targets); pipeline: fixtures + text x text x host products + ALL strings of length <= %d over {space, LF, CR, NBSP, U+2003, U+3000, a, tab} as a text child in 3 positions + %d generated modules; "
+                "+ %d random strings (also CRLF, U+2028, U+3000, entities' targets); pipeline: fixtures + text x text x 8-host products + ALL strings of length <= %d over {space, LF, CR, NBSP, U+2003, U+3000, a, tab} as a text child in 7 positions (incl. under pre, textarea, script, svg text hosts) + %d generated modules; "
                 "non-trivial = the implementation produced vnode calls; distinct = distinct (source, options) / distinct string" % (n_exh, n_rand, n_pipe, n_mod),
         "exhaustive": True,
         "exhaustive_part": "strings of length <= %d over the 8-symbol alphabet (unit correspondence of transform_text)" % n_exh,
@@ -397,7 +401,7 @@ def c01_cases(tier, seed):
                     n_exh += 1
     prof = {"tags": ALL_TAGS, "w_directive": 0, "w_spread": 3, "w_repeat": 2,
             "attr_names": {"plain": 6, "class": 3, "style": 2, "key": 1, "ref": 1, "onClick": 2, "on": 2, "ns": 1, "onUpdate": 1, "model-like": 1, "on-obj": 2},
-            "attr_values": {"string": 4, "none": 2, "expr": 6, "const": 3, "string-ws": 2, "jsx": 0, "empty": 0},
+            "attr_values": {"string": 4, "none": 2, "expr": 6, "const": 3, "string-ws": 2, "jsx": 1, "empty": 0},
             "n_attrs": [(0, 1), (1, 3), (2, 4), (3, 3), (4, 2), (6, 1)]}
     mods, hist = gen_modules(r, budget(tier, 2500, 60000), prof, std_opts)
     run += mods
@@ -466,10 +470,15 @@ def c04_cases(tier, seed):
         run.append({"id": "e%d" % len(run), "src": gen.PRELUDE + "const v = <%s%s %s%s>t{x}</%s>;\n" % (host, nb, name, val, host), "tsx": False,
                     "opts": {"optimize": bool(len(run) % 3 == 0), "mergeProps": len(run) % 5 != 0}})
     run = [c for c in run if c]
+    # directives around an attribute whose value is a bare element / fragment (the attribute fold re-enters the element transform)
+    for host, before, val, after in itertools.product(["div", "Comp", "A.B"], ["", "v-foo={x}", "v-show={y} v-bar:arg_m={a}", "v-model={val}"],
+                                                      ['<i class="x"/>', "<span v-inner={b}/>", "<></>", "<>t<b v-in={c}/></>", "{<i v-w={x}/>}"], ["", "v-after={c}", "v-show={z}"]):
+        run.append({"id": "e%d" % len(run), "src": gen.PRELUDE + "const v = <%s %s icon=%s %s/>;\n" % (host, before, val, after), "tsx": False,
+                    "opts": {"optimize": bool(len(run) % 2), "mergeProps": len(run) % 3 != 0}})
     prof = {"tags": ALL_TAGS, "w_directive": 6, "directives": {"custom": 5, "show": 2, "html": 2, "text": 2, "model": 1, "models": 0, "slots": 1}}
     mods, hist = gen_modules(r, budget(tier, 2500, 60000), prof, std_opts)
     run += mods
-    return [], run, {"rule": "fixtures + product of 25 directive spellings (incl. names that start with v, -, or with a built-in directive's name) x 10 value shapes x 3 hosts x 4 neighbourhoods (sampled 1/2 in quick) + %d generated modules rich in directives" % len(mods),
+    return [], run, {"rule": "fixtures + product of 25 directive spellings (incl. names that start with v, -, or with a built-in directive's name) x 10 value shapes x 3 hosts x 4 neighbourhoods (sampled 1/2 in quick) + 180 modules with directives before/after an element- or fragment-valued attribute + %d generated modules rich in directives" % len(mods),
                      "exhaustive": tier != "quick", "exhaustive_part": "spellings x value shapes x hosts x neighbourhoods product", "histogram": dict(hist.most_common(40))}
 
 
